@@ -261,8 +261,8 @@ Section Silent.
         pose proof (IHn _ _ _ _ _ A E1) as S1. pose proof (Mn _ _ _ _ _ E1) as M1.
         destruct rr.
         * inversion E; subst. exact S1.
-        * go_ih IHp Hne E A ltac:(eapply Rmeta_trans; [exact M1|]; apply (Rmeta_trans _ (drop_cmd DF cid H1)); [apply (R_drop_cmd Rmeta Rmeta_refl Rmeta_trans Rmeta_ucmd); intros; apply Rmeta_same_cmds; reflexivity | apply rm_note])
-                ltac:(eapply sx_trans; [exact S1|]; apply (sx_trans _ (drop_cmd DF cid H1)); [apply sx_drop_cmd | apply sx_note]).
+        * go_ih IHp Hne E A ltac:(eapply Rmeta_trans; [exact M1|]; apply (Rmeta_trans _ (drop_cmd (dfuel H1) cid H1)); [apply (R_drop_cmd Rmeta Rmeta_refl Rmeta_trans Rmeta_ucmd); intros; apply Rmeta_same_cmds; reflexivity | apply rm_note])
+                ltac:(eapply sx_trans; [exact S1|]; apply (sx_trans _ (drop_cmd (dfuel H1) cid H1)); [apply sx_drop_cmd | apply sx_note]).
         * go_ih IHp Hne E A ltac:(eapply Rmeta_trans; [exact M1 | apply Rmeta_ucmd; solve_good]) ltac:(eapply sx_trans; [exact S1 | push_other Hne]).
         * go_ih IHp Hne E A ltac:(eapply Rmeta_trans; [exact M1 | apply Rmeta_ucmd; solve_good]) ltac:(eapply sx_trans; [exact S1 | push_other Hne]).
       + (* LYield *)
